@@ -58,8 +58,21 @@ Lemma NoDup_app_intro : forall A (l1 l2 : list A),
 Proof.
   induction l1 as [|a l1 IH]; simpl; intros l2 N1 N2 D; auto.
   inversion N1; subst. constructor.
-  - intro C. apply in_app_or in C. destruct C as [C|C]; auto. apply (D a); auto.
-  - apply IH; auto. intros x Hx; apply D; auto.
+  - intro C. apply in_app_or in C. destruct C as [C|C]; [auto | apply (D a); auto].
+  - apply IH; auto; intros x Hx; apply D; right; auto.
+Qed.
+
+Lemma NoDup_app_l : forall A (l1 l2 : list A), NoDup (l1 ++ l2) -> NoDup l1.
+Proof.
+  induction l1 as [|a l1 IH]; simpl; intros l2 H; [constructor|].
+  inversion H; subst. constructor; [|eapply IH; eauto]. intro C; apply H2; apply in_or_app; auto.
+Qed.
+Lemma NoDup_app_r : forall A (l1 l2 : list A), NoDup (l1 ++ l2) -> NoDup l2.
+Proof. induction l1 as [|a l1 IH]; simpl; intros l2 H; auto. inversion H; subst; auto. Qed.
+Lemma NoDup_app_disj : forall A (l1 l2 : list A) x, NoDup (l1 ++ l2) -> In x l1 -> ~ In x l2.
+Proof.
+  induction l1 as [|a l1 IH]; simpl; intros l2 x H H1 H2; [contradiction|].
+  inversion H; subst. destruct H1 as [H1|H1]; [subst; apply H4; apply in_or_app; auto | eapply IH; eauto].
 Qed.
 
 (* ---------- definitions ---------- *)
@@ -165,13 +178,10 @@ Proof.
     rewrite B; unfold bkey_of; simpl; auto.
   - rewrite <- !firstn_map.
     apply NoDup_app_intro.
-    + apply NoDup_firstn. eapply NoDup_app_remove_r; eauto.
-    + apply NoDup_firstn. eapply NoDup_app_remove_l; eauto.
+    + apply NoDup_firstn. eapply NoDup_app_l; eauto.
+    + apply NoDup_firstn. eapply NoDup_app_r; eauto.
     + intros x H1 H2. apply firstn_In in H1; apply firstn_In in H2.
-      clear -ND H1 H2. induction (map vt_snd votes) as [|a l IH]; simpl in *; [contradiction|].
-      inversion ND; subst. destruct H1 as [H1|H1].
-      * subst. apply H3. apply in_or_app; auto.
-      * apply IH; auto.
+      eapply NoDup_app_disj; eauto.
   - apply pack_le in P1. apply pack_le in P2.
     rewrite sumN_firstn_map in P1, P2. unfold bundle_weight; simpl.
     eapply reaches_mono; [|exact R]. lia.
@@ -205,20 +215,23 @@ Proof.
   destruct (pack pm (vt_step v0') (map eq_w eqs) w) as [cut2 w2] eqn:P2.
   assert (V0 : In v0' votes) by (eapply firstn_In; rewrite EF; left; auto).
   destruct (FV v0' V0) as (k0 & _ & _ & _ & _ & VP).
-  eapply make_bundle_good in H.
-  - rewrite VP in H; exact H.
-  - intros x Hx. apply firstn_In in Hx. destruct (FV x Hx) as (k & _ & _ & A & B & _); auto.
-  - intros e He. apply firstn_In in He. destruct (FE e He) as [k Hk].
-    destruct (ti_e _ _ _ I k e Hk) as (_ & A & B & _); auto.
-  - rewrite <- !firstn_map. apply NoDup_app_intro.
+  assert (P1' : forall x, In x (firstn cut votes) -> In x D /\ key_of x = kk).
+  { intros x Hx. apply firstn_In in Hx. destruct (FV x Hx) as (k & _ & _ & A & B & _); auto. }
+  assert (P2' : forall e, In e (firstn cut2 eqs) -> eq_ok D e /\ ekey_of e = kk).
+  { intros e He. apply firstn_In in He. destruct (FE e He) as [k Hk].
+    destruct (ti_e _ _ _ I k e Hk) as (_ & A & B & _); auto. }
+  assert (P3' : NoDup (map vt_snd (firstn cut votes) ++ map eq_snd (firstn cut2 eqs))).
+  { rewrite <- !firstn_map. apply NoDup_app_intro.
     + apply NoDup_firstn; auto.
     + apply NoDup_firstn; auto.
     + intros s H1 H2. apply firstn_In in H1; apply firstn_In in H2.
       apply in_map_iff in H1. destruct H1 as [x [E1 H1]]. apply in_map_iff in H2. destruct H2 as [e [E2 H2]].
       destruct (FV x H1) as (k & A & B & _). destruct (FE e H2) as [k' Hk'].
       destruct (ti_e _ _ _ I k' e Hk') as (S1 & _ & _ & S4). apply S4.
-      assert (k' = s) by congruence. assert (k = s) by congruence. subst.
-      eapply In_fst; eauto.
+      replace k' with k by congruence.
+      apply (In_fst (vt_voters t) k x); exact A. }
+  pose proof (make_bundle_good pm D kk _ _ _ _ P1' P2' P3' H) as G.
+  rewrite VP in G; exact G.
 Qed.
 
 (* ---------- voteTracker.handle ---------- *)
@@ -251,25 +264,165 @@ Proof.
     + unfold gen_bundle in G; simpl in G; discriminate.
 Qed.
 
+Lemma counter_of_votes : forall D kk t v k y,
+  TInv D kk t -> In (k, y) (c_votes (counter_of t v)) -> In (k, y) (vt_voters t) /\ vt_val y = v.
+Proof.
+  intros D kk t v k y I H. unfold counter_of in H.
+  destruct (aget value_eqb v (vt_counts t)) as [c|] eqn:A; [|simpl in H; contradiction].
+  apply (aget_In value_eqb value_eqb_eq) in A. destruct (ti_c _ _ _ I _ _ A) as [_ B]. apply B; auto.
+Qed.
+Lemma counter_of_nodup : forall D kk t v, TInv D kk t -> NoDup (map fst (c_votes (counter_of t v))).
+Proof.
+  intros D kk t v I. unfold counter_of.
+  destruct (aget value_eqb v (vt_counts t)) as [c|] eqn:A; [|simpl; constructor].
+  apply (aget_In value_eqb value_eqb_eq) in A. apply (ti_c _ _ _ I _ _ A).
+Qed.
+
+Lemma new_voter_inv : forall D kk t x n a b c,
+  TInv D kk t -> aget N.eqb (vt_snd x) (vt_voters t) = None -> aget N.eqb (vt_snd x) (vt_equiv t) = None ->
+  In x D -> key_of x = kk ->
+  TInv D kk (mkVT (aset N.eqb (vt_snd x) x (vt_voters t))
+                  (aset value_eqb (vt_val x) (mkCounter n (aset N.eqb (vt_snd x) x (c_votes (counter_of t (vt_val x))))) (vt_counts t))
+                  (vt_equiv t) (vt_eqcount t) a b c).
+Proof.
+  intros D kk t x n a b c I AV AE XD K.
+  pose proof (aget_None_notin N.eqb N.eqb_eq _ _ AV) as NV.
+  pose proof (aget_None_notin N.eqb N.eqb_eq _ _ AE) as NE.
+  constructor; simpl.
+  - apply (aset_NoDup N.eqb N.eqb_eq). apply (ti_vnd _ _ _ I).
+  - intros k y H. apply aset_In in H. destruct H as [[? ?]|H]; subst; auto. apply (ti_v _ _ _ I); auto.
+  - apply (aset_NoDup value_eqb value_eqb_eq). apply (ti_cnd _ _ _ I).
+  - intros val cc H. apply (aset_In_strong value_eqb value_eqb_eq) in H; [|apply (ti_cnd _ _ _ I)].
+    destruct H as [[? ?]|[H NEQ]]; subst; simpl.
+    + split; [apply (aset_NoDup N.eqb N.eqb_eq); eapply counter_of_nodup; eauto|].
+      intros k y H. apply aset_In in H. destruct H as [[? ?]|H]; subst.
+      * split; auto. apply aset_In_self.
+      * destruct (counter_of_votes _ _ _ _ _ _ I H) as [A B]. split; auto.
+        apply (In_aset_other N.eqb N.eqb_eq); auto. intro; subst. apply NV. eapply In_fst; eauto.
+    + destruct (ti_c _ _ _ I _ _ H) as [A B]. split; auto. intros k y Hy. destruct (B k y Hy) as [B1 B2]; split; auto.
+      apply (In_aset_other N.eqb N.eqb_eq); auto. intro; subst. apply NV. eapply In_fst; eauto.
+  - apply (ti_end _ _ _ I).
+  - intros k e H. destruct (ti_e _ _ _ I k e H) as (A & B & C0 & E). repeat split; auto.
+    intro C. apply aset_keys in C. destruct C as [C|C]; auto. subst. apply NE. eapply In_fst; eauto.
+Qed.
+
+Lemma equivocate_inv : forall D kk t x old counts' ec a b c,
+  TInv D kk t -> In (vt_snd x, old) (vt_voters t) -> aget N.eqb (vt_snd x) (vt_equiv t) = None ->
+  value_eqb (vt_val old) (vt_val x) = false -> In x D -> key_of x = kk ->
+  (counts' = adel value_eqb (vt_val old) (vt_counts t) \/
+   counts' = aset value_eqb (vt_val old)
+                  (mkCounter (c_count (counter_of t (vt_val old)) - vt_w old)
+                             (adel N.eqb (vt_snd x) (c_votes (counter_of t (vt_val old))))) (vt_counts t)) ->
+  TInv D kk (mkVT (adel N.eqb (vt_snd x) (vt_voters t)) counts'
+                  (aset N.eqb (vt_snd x)
+                        (mkEqv (vt_snd old) (vt_rnd old) (vt_per old) (vt_step old) (vt_w old) (vt_cred old) (vt_val old) (vt_val x))
+                        (vt_equiv t)) ec a b c).
+Proof.
+  intros D kk t x old counts' ec a b c I OV AE VE XD K HC.
+  pose proof (aget_None_notin N.eqb N.eqb_eq _ _ AE) as NE.
+  destruct (ti_v _ _ _ I _ _ OV) as (OS & OD & OK).
+  apply value_eqb_neq in VE.
+  assert (OTH : forall val cc k y, In (val, cc) (vt_counts t) -> val <> vt_val old -> In (k, y) (c_votes cc) ->
+                 In (k, y) (adel N.eqb (vt_snd x) (vt_voters t)) /\ vt_val y = val).
+  { intros val cc k y H NEQ Hy. destruct (ti_c _ _ _ I _ _ H) as [_ B]. destruct (B k y Hy) as [B1 B2]; split; auto.
+    apply (In_adel N.eqb N.eqb_eq); auto. intro; subst k.
+    assert (y = old) by (eapply (In_key_unique (vt_voters t)); eauto; apply (ti_vnd _ _ _ I)). subst. congruence. }
+  constructor; simpl.
+  - apply adel_NoDup. apply (ti_vnd _ _ _ I).
+  - intros k y H. apply (adel_In N.eqb N.eqb_eq) in H. destruct H. apply (ti_v _ _ _ I); auto.
+  - destruct HC; subst counts'; [apply adel_NoDup | apply (aset_NoDup value_eqb value_eqb_eq)]; apply (ti_cnd _ _ _ I).
+  - intros val cc H. destruct HC; subst counts'.
+    + apply (adel_In value_eqb value_eqb_eq) in H. destruct H as [H NEQ].
+      split; [apply (ti_c _ _ _ I _ _ H)|]. intros k y Hy; eapply OTH; eauto.
+    + apply (aset_In_strong value_eqb value_eqb_eq) in H; [|apply (ti_cnd _ _ _ I)].
+      destruct H as [[? ?]|[H NEQ]]; subst; simpl.
+      * split; [apply adel_NoDup; eapply counter_of_nodup; eauto|].
+        intros k y Hy. apply (adel_In N.eqb N.eqb_eq) in Hy. destruct Hy as [Hy NEQ].
+        destruct (counter_of_votes _ _ _ _ _ _ I Hy) as [A B]; split; auto.
+        apply (In_adel N.eqb N.eqb_eq); auto.
+      * split; [apply (ti_c _ _ _ I _ _ H)|]. intros k y Hy; eapply OTH; eauto.
+  - apply (aset_NoDup N.eqb N.eqb_eq). apply (ti_end _ _ _ I).
+  - intros k e H. apply aset_In in H. destruct H as [[? ?]|H]; subst.
+    + simpl. repeat split; auto.
+      * exists old, x. unfold ekey_of, key_of in *; simpl. repeat split; auto; try congruence.
+        inversion OK; inversion K; subst; auto. rewrite <- K in OK. inversion OK; auto.
+      * intro C. apply (adel_keys N.eqb N.eqb_eq) in C. destruct C; auto.
+    + destruct (ti_e _ _ _ I k e H) as (A & B & C0 & E). repeat split; auto.
+      intro C. apply (adel_keys N.eqb N.eqb_eq) in C. destruct C; auto.
+Qed.
+
+Lemma none_post : forall pm D kk x t, TInv D kk t -> accept_post pm D kk x (t, None).
+Proof. intros; split; simpl; auto; intros; discriminate. Qed.
+
+Lemma vt_accept_body_spec : forall pm D kk t x ob,
+  TInv D kk t -> In x D -> key_of x = kk -> aget N.eqb (vt_snd x) (vt_equiv t) = None ->
+  wp (match aget N.eqb (vt_snd x) (vt_voters t) with
+      | None =>
+          let c := counter_of t (vt_val x) in
+          let c' := mkCounter (w64 (c_count c + vt_w x)) (aset N.eqb (vt_snd x) x (c_votes c)) in
+          vt_finish pm x ob
+            (mkVT (aset N.eqb (vt_snd x) x (vt_voters t)) (aset value_eqb (vt_val x) c' (vt_counts t))
+                  (vt_equiv t) (vt_eqcount t) (vc_step t) (vc_stepok t) (vc_emitted t))
+      | Some old =>
+          if value_eqb (vt_val old) (vt_val x) then Ok (t, None)
+          else
+            let ec := w64 (vt_eqcount t + vt_w x) in
+            if reaches pm (vt_step x) ec then Panic "voteTracker_too_many_equivocators"
+            else
+              let oc := counter_of t (vt_val old) in
+              let counts' :=
+                if c_count oc <=? vt_w old then adel value_eqb (vt_val old) (vt_counts t)
+                else aset value_eqb (vt_val old)
+                       (mkCounter (c_count oc - vt_w old) (adel N.eqb (vt_snd x) (c_votes oc))) (vt_counts t) in
+              let ev := mkEqv (vt_snd old) (vt_rnd old) (vt_per old) (vt_step old) (vt_w old)
+                              (vt_cred old) (vt_val old) (vt_val x) in
+              let t' := mkVT (adel N.eqb (vt_snd x) (vt_voters t)) counts'
+                             (aset N.eqb (vt_snd x) ev (vt_equiv t)) ec
+                             (vc_step t) (vc_stepok t) (vc_emitted t) in
+              match vt_voters t' with
+              | [] => Ok (t', None)
+              | _ => vt_finish pm x ob t'
+              end
+      end) (accept_post pm D kk x).
+Proof.
+  intros pm D kk t x ob I XD K AE.
+  destruct (aget N.eqb (vt_snd x) (vt_voters t)) as [old|] eqn:AV.
+  - apply (aget_In N.eqb N.eqb_eq) in AV.
+    destruct (value_eqb (vt_val old) (vt_val x)) eqn:VE; [apply none_post; auto|].
+    destruct (reaches pm (vt_step x) (w64 (vt_eqcount t + vt_w x))); [exact I|].
+    cbv zeta.
+    match goal with |- wp (match vt_voters ?T with _ => _ end) _ => assert (I' : TInv D kk T) end.
+    { eapply equivocate_inv; eauto. destruct (c_count (counter_of t (vt_val old)) <=? vt_w old); auto. }
+    match goal with |- wp (match ?L with _ => _ end) _ => destruct L eqn:EV' end.
+    + apply none_post; auto.
+    + apply vt_finish_spec; auto.
+  - cbv zeta. apply vt_finish_spec; auto. apply new_voter_inv; auto.
+Qed.
+
 Lemma vt_accept_spec : forall pm D kk t x,
   TInv D kk t -> In x D -> key_of x = kk -> wp (vt_accept pm t x) (accept_post pm D kk x).
 Proof.
   intros pm D kk t x I XD K. unfold vt_accept.
-  destruct (aget N.eqb (vt_snd x) (vt_equiv t)) as [e0|] eqn:AE.
-  { simpl; split; simpl; auto; intros; discriminate. }
-  pose proof (aget_None_notin N.eqb N.eqb_eq _ _ AE) as NE.
-  destruct (over_threshold pm (vt_step x) t) eqn:OB; try exact I.
-  - (* OvNone *)
-    destruct (aget N.eqb (vt_snd x) (vt_voters t)) as [old|] eqn:AV.
-    + apply (aget_In N.eqb N.eqb_eq) in AV.
-      destruct (value_eqb (vt_val old) (vt_val x)) eqn:VE.
-      { simpl; split; simpl; auto; intros; discriminate. }
-      destruct (reaches pm (vt_step x) (w64 (vt_eqcount t + vt_w x))); [exact I|].
-      match goal with |- wp (match vt_voters ?T with _ => _ end) _ => set (t' := T) end.
-      assert (I' : TInv D kk t').
-      { admit. }
-      destruct (vt_voters t') eqn:EV'; [simpl; split; simpl; auto; intros; discriminate|].
-      apply vt_finish_spec; auto.
-    + admit.
-  - admit.
-Abort.
+  destruct (aget N.eqb (vt_snd x) (vt_equiv t)) as [e0|] eqn:AE; [apply none_post; auto|].
+  destruct (over_threshold pm (vt_step x) t) eqn:OB; [exact I| |]; apply vt_accept_body_spec; auto.
+Qed.
+
+Lemma TInv_contract : forall D kk t a b c,
+  TInv D kk t -> TInv D kk (mkVT (vt_voters t) (vt_counts t) (vt_equiv t) (vt_eqcount t) a b c).
+Proof. intros D kk t a b c [A B C0 C E F]; constructor; auto. Qed.
+
+Lemma vt_checked_accept_spec : forall pm D kk t x,
+  TInv D kk t -> In x D -> key_of x = kk -> wp (vt_checked_accept pm t x) (accept_post pm D kk x).
+Proof.
+  intros pm D kk t x I XD K. unfold vt_checked_accept.
+  destruct (vt_step x =? s_propose); [exact I|].
+  destruct (vc_stepok t && negb (vc_step t =? vt_step x)); [exact I|].
+  apply wp_bind. eapply wp_mono.
+  - apply vt_accept_spec; eauto. destruct (vc_stepok t); auto. apply TInv_contract; auto.
+  - intros [t2 oth] [P1 P2]; simpl in *. destruct oth as [th|]; [|apply none_post; auto].
+    destruct (vc_emitted t2); [exact I|].
+    destruct (_ && is_bottom (th_val th)); [exact I|].
+    destruct (ub_votes (th_b th)); [exact I|].
+    destruct (is_bottom (th_val th) && (th_step th <? s_next)); [exact I|].
+    split; simpl; auto. apply TInv_contract; auto.
+Qed.
